@@ -152,6 +152,9 @@ func (x *fx) staticCall(f *ssa.Function, bindings []ssa.Value, cc *ssa.CallCommo
 		return
 	}
 	c2 := x.g.lookupContract(pkg, name)
+	if c2 == nil && strings.HasPrefix(name, "(") && !strings.HasPrefix(name, "(*") {
+		c2 = x.g.lookupContract(pkg, strings.Replace(strings.Replace(name, "(", "", 1), ")", "", 1))
+	}
 	if c2 == nil && f.Origin() != nil && f.Origin() != f {
 		_, oname := fnKey(f.Origin())
 		c2 = x.g.lookupContract(pkg, oname)
